@@ -9,6 +9,7 @@ mod byteseng;
 mod common;
 mod isa;
 mod isaeng;
+mod memeng;
 mod refmodel;
 mod refverif;
 mod text;
@@ -25,6 +26,8 @@ fn usage() -> ! {
 fn run_engine(prop: &str, s: &mut Sink) {
     match prop {
         "C01" => isaeng::run(s, vm::Eng::Interp),
+        "C02" => memeng::run(s, false),
+        "C11" => memeng::run(s, true),
         "C03" => isaeng::run(s, vm::Eng::Jit),
         "C04" => isaeng::run(s, vm::Eng::Cl),
         "C05" => byteseng::run(s, byteseng::Mode::C05),
@@ -47,6 +50,7 @@ pub fn replay_value(rp: &Value) -> Vec<String> {
         "isa-l1" => isaeng::replay_l1(rp),
         "isa-prog" => isaeng::replay_prog(rp),
         "isa-l4" => isaeng::replay_l4(rp),
+        "mem" => memeng::replay(rp),
         "verify" => byteseng::replay_verify(rp),
         "interp-total" => byteseng::replay_interp_total(rp),
         "compile-total" => byteseng::replay_compile_total(rp),
